@@ -180,7 +180,8 @@ impl Ctx {
                 c.extend(cmd_extra);
                 Command::from(c)
             })
-            .byproducts(ByProducts::new().set_stdout(byp).set_stderr(String::new()).set_return_value(0))
+            // (the error stream always holds what tools print to a terminal: escape sequences and other control characters)
+            .byproducts(ByProducts::new().set_stdout(byp).set_stderr("\u{1b}[31mwarn\u{1b}[0m \u{1}\u{8}\u{7f}".to_string()).set_return_value(0))
             .env(env)
             .build()
             .unwrap()
@@ -206,7 +207,7 @@ impl Ctx {
 
     fn layout_meta(&self, d: &Value, variant: &str) -> LayoutMetadata {
         let expires = instant_of(d["expires"].as_i64().unwrap());
-        let mut b = LayoutMetadataBuilder::new().expires(expires).readme("readme".to_string());
+        let mut b = LayoutMetadataBuilder::new().expires(expires).readme("read\u{1b}me\u{2}".to_string());
         for k in d["keys"].as_array().unwrap() {
             b = b.add_key(self.km.pk(k.as_str().unwrap()).clone());
         }
